@@ -83,6 +83,11 @@ impl<'a, 'b> SchemerContext<'a, 'b> {
     fn mapping_conjunction_to_schema(&mut self, clause: &Conjunction) -> anyhow::Result<Runtype> {
         let mut acc = vec![];
 
+        if clause.positive.is_empty() {
+            // only negative atoms: the clause still denotes values of this kind only
+            acc.push(Runtype::any_object());
+        }
+
         for atom in &clause.positive {
             let mt = match atom {
                 Atom::Mapping(a) => self.ctx.0.get_mapping_atomic(*a).clone(),
@@ -130,6 +135,14 @@ impl<'a, 'b> SchemerContext<'a, 'b> {
 
     fn map_conjunction_to_schema(&mut self, clause: &Conjunction) -> anyhow::Result<Runtype> {
         let mut acc = vec![];
+
+        if clause.positive.is_empty() {
+            // only negative atoms: the clause still denotes values of this kind only
+            acc.push(Runtype::map(
+                Box::new(Runtype::any()),
+                Box::new(Runtype::any()),
+            ));
+        }
 
         for atom in &clause.positive {
             let mt = match atom {
@@ -190,6 +203,11 @@ impl<'a, 'b> SchemerContext<'a, 'b> {
     fn list_conjunction_to_schema(&mut self, clause: &Conjunction) -> anyhow::Result<Runtype> {
         let mut acc = vec![];
 
+        if clause.positive.is_empty() {
+            // only negative atoms: the clause still denotes values of this kind only
+            acc.push(Runtype::any_array_like());
+        }
+
         for atom in &clause.positive {
             let lt = match atom {
                 Atom::List(a) => self.ctx.0.get_list_atomic(*a).clone(),
@@ -232,6 +250,11 @@ impl<'a, 'b> SchemerContext<'a, 'b> {
 
     fn set_conjunction_to_schema(&mut self, clause: &Conjunction) -> anyhow::Result<Runtype> {
         let mut acc = vec![];
+
+        if clause.positive.is_empty() {
+            // only negative atoms: the clause still denotes values of this kind only
+            acc.push(Runtype::set(Box::new(Runtype::any())));
+        }
 
         for atom in &clause.positive {
             let lt = match atom {
@@ -331,52 +354,57 @@ impl<'a, 'b> SchemerContext<'a, 'b> {
                     acc.insert(Runtype::const_(RuntypeConst::Bool(*v)));
                 }
                 ProperSubtype::Number { allowed, values } => {
+                    let mut excluded = vec![Runtype::number()];
                     for h in values {
-                        match h {
+                        let it = match h {
                             NumberRepresentationOrFormat::Lit(n) => {
-                                acc.insert(maybe_not(
-                                    Runtype::const_(RuntypeConst::Number(n.clone())),
-                                    !allowed,
-                                ));
+                                Runtype::const_(RuntypeConst::Number(n.clone()))
                             }
                             NumberRepresentationOrFormat::Format(CustomFormat(first, rest)) => {
-                                acc.insert(maybe_not(
-                                    Runtype::number_with_format(CustomFormat(
-                                        first.clone(),
-                                        rest.clone(),
-                                    )),
-                                    !allowed,
-                                ));
+                                Runtype::number_with_format(CustomFormat(
+                                    first.clone(),
+                                    rest.clone(),
+                                ))
                             }
+                        };
+                        if *allowed {
+                            acc.insert(it);
+                        } else {
+                            excluded.push(Runtype::st_not(Box::new(it)));
                         }
+                    }
+                    if !*allowed {
+                        acc.insert(Runtype::all_of(excluded));
                     }
                 }
                 ProperSubtype::String { allowed, values } => {
+                    let mut excluded = vec![Runtype::string()];
                     for h in values {
-                        match h {
+                        let it = match h {
                             StringLitOrFormat::Format(CustomFormat(first, rest)) => {
-                                acc.insert(maybe_not(
-                                    Runtype::string_with_format(CustomFormat(
-                                        first.clone(),
-                                        rest.clone(),
-                                    )),
-                                    !allowed,
-                                ));
+                                Runtype::string_with_format(CustomFormat(
+                                    first.clone(),
+                                    rest.clone(),
+                                ))
                             }
                             StringLitOrFormat::Tpl(items) => {
                                 //
                                 match items.0.first() {
-                                    Some(TplLitTypeItem::StringConst(c)) => acc.insert(maybe_not(
-                                        Runtype::single_string_const(c),
-                                        !allowed,
-                                    )),
-                                    _ => acc.insert(maybe_not(
-                                        Runtype::tpl_lit_type(items.clone()),
-                                        !allowed,
-                                    )),
-                                };
+                                    Some(TplLitTypeItem::StringConst(c)) => {
+                                        Runtype::single_string_const(c)
+                                    }
+                                    _ => Runtype::tpl_lit_type(items.clone()),
+                                }
                             }
+                        };
+                        if *allowed {
+                            acc.insert(it);
+                        } else {
+                            excluded.push(Runtype::st_not(Box::new(it)));
                         }
+                    }
+                    if !*allowed {
+                        acc.insert(Runtype::all_of(excluded));
                     }
                 }
                 ProperSubtype::Mapping(bdd) => {
@@ -390,20 +418,38 @@ impl<'a, 'b> SchemerContext<'a, 'b> {
                     allowed,
                     values: value,
                 } => {
+                    let mut excluded = vec![Runtype::undefined()];
                     for v in value {
-                        match v {
-                            VoidUndefinedSubtype::Void => {
-                                acc.insert(maybe_not(Runtype::void(), !allowed));
-                            }
-                            VoidUndefinedSubtype::Undefined => {
-                                acc.insert(maybe_not(Runtype::undefined(), !allowed));
-                            }
+                        let it = match v {
+                            VoidUndefinedSubtype::Void => Runtype::void(),
+                            VoidUndefinedSubtype::Undefined => Runtype::undefined(),
+                        };
+                        if *allowed {
+                            acc.insert(it);
+                        } else {
+                            excluded.push(Runtype::st_not(Box::new(it)));
                         }
+                    }
+                    if !*allowed {
+                        acc.insert(Runtype::all_of(excluded));
                     }
                 }
                 ProperSubtype::TypedArray { allowed, values } => {
+                    let mut all_kinds = vec![];
+                    for kind in TypedArrayKind::all() {
+                        all_kinds.push(Runtype::typed_array(kind));
+                    }
+                    let mut excluded = vec![Runtype::any_of(all_kinds)];
                     for kind in values {
-                        acc.insert(maybe_not(Runtype::typed_array(*kind), !allowed));
+                        let it = Runtype::typed_array(*kind);
+                        if *allowed {
+                            acc.insert(it);
+                        } else {
+                            excluded.push(Runtype::st_not(Box::new(it)));
+                        }
+                    }
+                    if !*allowed {
+                        acc.insert(Runtype::all_of(excluded));
                     }
                 }
                 ProperSubtype::Map(bdd) => {
@@ -478,11 +524,4 @@ pub fn semtype_to_runtypes(
         },
         vs,
     ))
-}
-fn maybe_not(it: Runtype, add_not: bool) -> Runtype {
-    if add_not {
-        Runtype::st_not(Box::new(it))
-    } else {
-        it
-    }
 }
